@@ -105,16 +105,22 @@ static void c15_batch(long idx, long n, uint64_t seed) {
         Rng r(seed);
         RawServer srv; srv.start();
         int threads = r.range(1, 4), maxConn = r.range(1, 8), nreq = r.range(1, 64);
-        int scenario = (int)((n + g_opts.shard) % 7);   // 0 only answering behaviours, 1 with never-answered + time-outs, 2 with late answers, 3 close-after mix,
+        int scenario = (int)((n + g_opts.shard) % 9);   // 0 only answering behaviours, 1 with never-answered + time-outs, 2 with late answers, 3 close-after mix,
                                        // 4 answered requests that carry a time-out followed by slow requests without one,
                                        // 5 a response and the expiry of a time-out reaching the client in ONE poll result (see below)
                                        // 6 requests to a host whose connect() fails on the spot, queued together with requests that need new connections to
                                        //   the healthy server while the I/O thread is busy: the failed entry must not end the drain of the connection queue
+                                       // 7 a long history on ONE client: five waves of 520 requests over two connections, each wave waited for (2 500 requests
+                                       //   pass through the overflow queue; how many wait at once is unremarkable)
+                                       // 8 a response and the expiry of ITS OWN time-out reach the busy I/O thread in one poll result (response first), and a queued
+                                       //   request with a time-out that the server never answers is handed over to that connection in the same poll: it must be rejected
         if (scenario == 5) { threads = 1; maxConn = 2; nreq = 7; }
         static int deadHostWorks = -1;   // does a non-blocking connect to the limited-broadcast address fail at once here (ENETUNREACH)?
         if (deadHostWorks < 0) { int fd = ::socket(AF_INET, SOCK_STREAM | SOCK_NONBLOCK, 0); sockaddr_in a{}; a.sin_family = AF_INET; a.sin_port = htons(9); a.sin_addr.s_addr = htonl(INADDR_BROADCAST); int rc = ::connect(fd, (sockaddr*)&a, sizeof a); deadHostWorks = (rc == -1 && errno != EINPROGRESS) ? 1 : 0; ::close(fd); }
         if (scenario == 6 && !deadHostWorks) { scenario = 0; count("dead_host_scenario_not_applicable_here"); }
         if (scenario == 6) { threads = 1; maxConn = r.range(3, 8); nreq = r.range(6, 20); }
+        if (scenario == 7) { threads = 1; maxConn = 2; nreq = 520; }
+        if (scenario == 8) { threads = 1; maxConn = 2; nreq = 4; }
         if (scenario == 4) nreq = std::min(nreq, 16 * maxConn);   // its slow requests take 0.6 s each: the batch has to fit into the waiting bound
         Http::Experimental::Client client;
         client.init(Http::Experimental::Client::options().threads(threads).maxConnectionsPerHost(maxConn));
@@ -125,10 +131,10 @@ static void c15_batch(long idx, long n, uint64_t seed) {
         // application threads issuing the batch: 1, or several released together (the pool is then claimed concurrently by the
         // issuers and by the I/O threads handing queued requests over)
         int issuers = r.chance(2, 5) ? r.range(2, 6) : 1;
-        if (scenario == 5 || scenario == 6) issuers = 1;
+        if (scenario == 5 || scenario == 6 || scenario == 7 || scenario == 8) issuers = 1;
         cfg += " issuers=" + std::to_string(issuers);
         set_case(idx, Json().num("i", idx).str("phase", "c15").str("config", cfg).done());
-        std::vector<int> params((size_t)nreq); std::vector<std::string> bodies((size_t)nreq); std::vector<int> pauseAfter((size_t)nreq, -1); std::vector<char> dead((size_t)nreq, 0); std::atomic<int> ioBusy{0};
+        std::vector<int> params((size_t)nreq); std::vector<std::string> bodies((size_t)nreq); std::vector<int> pauseAfter((size_t)nreq, -1); std::vector<char> dead((size_t)nreq, 0), lenient((size_t)nreq, 0); std::atomic<int> ioBusy{0};
         for (int k = 0; k < nreq; k++) {
             out.emplace_back(new Outcome());
             int b;
@@ -156,10 +162,17 @@ static void c15_batch(long idx, long n, uint64_t seed) {
                 if (k == 0) { b = B_DELAYED; param = 10596; to = 0; } else if (k <= 3) { b = B_LATE; param = 599; to = 200; } else { b = B_IMMEDIATE; param = 5; to = 0; }
                 beh[(size_t)k] = b;
             }
+            if (scenario == 7) { b = B_IMMEDIATE; param = 0; to = 0; beh[(size_t)k] = b; }
+            if (scenario == 8) {
+                // 0: answered after 100 ms, its continuation keeps the I/O thread for 400 ms.  1 (R): answered after 150 ms, time-out 300 ms, on the
+                // second connection.  2 (F) and 3 (Q) are issued while the thread is held: F is answered after 1 s, Q (time-out 200 ms) never.
+                static const int B8[] = {B_DELAYED, B_DELAYED, B_DELAYED, B_NEVER}; static const int P8[] = {10100, 10150, 11000, 0}; static const int T8[] = {0, 300, 0, 200};
+                b = B8[k]; param = P8[k]; to = T8[k]; beh[(size_t)k] = b; if (k == 1) lenient[(size_t)k] = 1;
+            }
             timeoutMs[(size_t)k] = to; params[(size_t)k] = param;
             if (r.chance(1, 3)) { int bl = r.range(1, 300); for (int j = 0; j < bl; j++) bodies[(size_t)k] += (char)r.below(256); }
             if (r.chance(1, 6)) pauseAfter[(size_t)k] = r.range(0, 3);
-            if (scenario == 6) pauseAfter[(size_t)k] = -1;
+            if (scenario == 6 || scenario == 7 || scenario == 8) { pauseAfter[(size_t)k] = -1; if (scenario != 6) bodies[(size_t)k].clear(); }
         }
         auto build = [&](int k) {
             int b = beh[(size_t)k], param = params[(size_t)k], to = timeoutMs[(size_t)k]; const std::string& bodyIn = bodies[(size_t)k];
@@ -175,14 +188,15 @@ static void c15_batch(long idx, long n, uint64_t seed) {
             Outcome* o = out[(size_t)k].get();
             auto rb = prebuilt ? *prebuilt : build(k);
             try {
-                bool blockIo = scenario == 5 && k == 0; bool holdIo = scenario == 6 && k == 0; std::atomic<int>* busy = &ioBusy;
-                rb.send().then([o, blockIo, holdIo, busy](Http::Response resp) { int t = -1; sscanf(resp.body().c_str(), "tag=%d;", &t); o->tag = t; o->status = (int)resp.code(); o->at = lv::now(); o->fulfilled++; if (blockIo) lv::msleep(8); if (holdIo) { busy->store(1); lv::msleep(60); } },
+                bool blockIo = scenario == 5 && k == 0; int holdIo = (scenario == 6 && k == 0) ? 60 : (scenario == 8 && k == 0) ? 400 : 0; std::atomic<int>* busy = &ioBusy;
+                rb.send().then([o, blockIo, holdIo, busy](Http::Response resp) { int t = -1; sscanf(resp.body().c_str(), "tag=%d;", &t); o->tag = t; o->status = (int)resp.code(); o->at = lv::now(); o->fulfilled++; if (blockIo) lv::msleep(8); if (holdIo) { busy->store(1); lv::msleep(holdIo); } },
                                [o](std::exception_ptr) { o->at = lv::now(); o->rejected++; });
             } catch (const std::exception& e) { o->err = e.what(); o->rejected++; }
             if (pauseAfter[(size_t)k] >= 0) lv::msleep(pauseAfter[(size_t)k]);
         };
         if (issuers == 1) { for (int k = 0; k < nreq; k++) { issue(k);
             // scenario 6: everything after request 0 is issued while its continuation keeps the (only) I/O thread away from its loop
+            if (scenario == 8 && k == 1) { double e0 = lv::now() + 5.0 * lv::load_factor(); while (!ioBusy.load() && lv::now() < e0) usleep(200); if (ioBusy.load()) count("own_timer_and_response_batches_staged"); }
             if (scenario == 6 && k == 0) { double e0 = lv::now() + 5.0 * lv::load_factor(); while (!ioBusy.load() && lv::now() < e0) usleep(200); if (ioBusy.load()) count("dead_host_batches_queued_while_io_thread_busy"); } } }
         else {
             std::atomic<int> ready{0}; std::atomic<bool> go{false}; std::vector<std::thread> it;
@@ -205,6 +219,19 @@ static void c15_batch(long idx, long n, uint64_t seed) {
         // a batch cut short by the bound while the server was still receiving requests: what had not been sent yet is not judged
         bool truncated = !allSettled() && srv.lastActivity.load() > 0 && lv::now() - srv.lastActivity.load() <= 3.0 * lf;
         lv::msleep(50);
+        // scenario 7: four more waves of the same size through the same client, each waited for
+        if (scenario == 7 && allSettled()) {
+            for (int wave = 1; wave < 5 && allSettled(); wave++) {
+                int first = nreq;
+                for (int k = 0; k < 520; k++) { out.emplace_back(new Outcome()); beh.push_back(B_IMMEDIATE); timeoutMs.push_back(0); }
+                nreq += 520;
+                for (int k = first; k < nreq; k++) { Outcome* o = out[(size_t)k].get();
+                    try { client.get(base + "/t/" + std::to_string(k) + "/0/0").send().then([o](Http::Response resp) { int t = -1; sscanf(resp.body().c_str(), "tag=%d;", &t); o->tag = t; o->status = (int)resp.code(); o->fulfilled++; }, [o](std::exception_ptr) { o->rejected++; }); }
+                    catch (const std::exception& e) { o->err = e.what(); o->rejected++; } }
+                double e7 = lv::now() + 15.0 * lf; while (!allSettled() && lv::now() < e7) lv::msleep(5);
+                count("long_history_waves");
+            }
+        }
         // second wave: once the batch has drained, further requests through the same client must still be served
         // (connections handed back to the pool, nothing left claimed)
         int wave2 = (allSettled() && scenario != 2 && scenario != 3) ? 3 : 0;
@@ -256,11 +283,12 @@ static void c15_batch(long idx, long n, uint64_t seed) {
             else if (o.fulfilled && (b == B_NEVER)) key = "c15:fulfilled-without-answer";
             else if (b == B_NEVER && byId.count(k) && !o.rejected) key = "c15:not-rejected-after-timeout";
             else if (b == B_LATE && byId.count(k) && o.fulfilled == 0 && o.rejected == 0) key = "c15:not-rejected-after-timeout";
-            else if (served && b != B_LATE && b != B_CLOSE_AFTER && !o.fulfilled) {
+            else if (served && b != B_LATE && b != B_CLOSE_AFTER && !o.fulfilled && !((size_t)k < lenient.size() && lenient[(size_t)k] && o.rejected == 1)) {
                 // the server answered it: the promise must be fulfilled (a rejection is only legitimate when the connection was lost)
                 bool connLost = false; for (auto& l : log) if (l.conn == byId[k].conn && l.behaviour == B_CLOSE_AFTER) connLost = true;
                 if (!connLost) key = std::string("c15:answered-but-not-fulfilled:") + (precededByLate(k) ? "after-late-response-of-timed-out-request" : o.rejected ? "rejected" : "unsettled");
             }
+            else if (scenario == 7 && !byId.count(k) && o.rejected && !o.fulfilled) key = "c15:rejected-without-being-sent";   // (at most 520 requests wait at once: the overflow queue is never legitimately full)
             else if (!byId.count(k) && o.fulfilled + o.rejected == 0) { if (truncated) { count("requests_not_judged_batch_cut_short"); } else key = "c15:request-never-sent-and-never-settled"; }
             if (!key.empty()) anomalies.emplace_back(key, cfg + ": request " + std::to_string(k) + " (" + BNAME[b] + "): " + key.substr(4), wt);
             count(std::string("requests_") + BNAME[b]);
@@ -348,7 +376,7 @@ static void run_c15(long cases) {
     for (long n = 0; n < cases; n++) {
         long idx = g_opts.shard * 100000L + n;
         uint64_t seed = r.next();
-        int scenario = (int)((n + g_opts.shard) % 7);
+        int scenario = (int)((n + g_opts.shard) % 9);
         pid_t pid = fork();
         if (pid == 0) { c15_batch(idx, n, seed); _exit(0); }
         double end = lv::now() + 25.0 * lv::load_factor(); int status = 0; bool exited = false;
